@@ -183,6 +183,9 @@ R.invariant(
         "forall(lambda x: implies(self._acked.gview[x], not self._pending.gview[x]))",
         "self._buffer_fin is None or self._buffer_fin == self._buffer_stop",
         "not self._pending_eof or self._buffer_fin is not None",
+        # after a reset nothing is offered any more
+        "self._reset_error_code is None or self.buffer_is_empty",
+        "self.highest_offset >= 0",
         "self.highest_offset <= self._buffer_stop",
     ],
 )
@@ -261,7 +264,8 @@ R.contract(
     requires=["self._reset_error_code is not None", "self._stream_id is not None"],
     returns="QuicResetStreamFrame",
     modifies=["self.reset_pending"],
-    ensures=["result.final_size == self.highest_offset", "not self.reset_pending", "result.error_code == self._reset_error_code"],
+    ensures=["result.final_size == self.highest_offset", "not self.reset_pending", "result.error_code == self._reset_error_code", "result.stream_id == self._stream_id",
+             "self.highest_offset == old(self.highest_offset)"],
     prop=["C10", "C06"],
 )
 
@@ -334,4 +338,12 @@ R.contract(
         "implies(live and not acked, self._buffer_start == old(self._buffer_start) and self.is_finished == old(self.is_finished) and self._acked_fin == old(self._acked_fin) and forall(lambda x: self._acked.gview[x] == old(self._acked.gview)[x]))",
     ],
     prop=["C10", "C01"],
+)
+
+R.contract(
+    "QuicStreamSender.next_offset",
+    returns="int",
+    ensures=["result == (RL(self._pending)[0].start if len(RL(self._pending)) > 0 else self._buffer_stop)", "result >= 0",
+             "self.highest_offset == old(self.highest_offset)"],
+    prop=["C06"],
 )
